@@ -165,4 +165,37 @@ def subRetryMsgReady (fin h : Int) : Bool := !decide (¬ (fin > h))
 /-- Substrate `RetryEventHandler`: `finalized.Cmp(h) == -1` ⇒ skip -/
 def subRetryEventReady (fin h : Int) : Bool := !decide (fin < h)
 
+/-! ### the retry paths and the scan as ONE stateful machine
+
+  In the Go code the retry message handler, the retry-by-tx path and the listener of a chain share one `*big.Int`
+  (the chain config's `BlockConfirmations`). The machine threads that shared value explicitly through a sequence of
+  steps handled by the same objects; in the code as it is no step writes it (`FetchRetryDepositEvents` does add the
+  confirmations into `receipt.BlockNumber`, but the receipt is an object of that one call). -/
+
+inductive SeqStep
+  | retry (latest h : Int)          -- retry by height on the one retry message handler
+  | retryTx (latest receipt : Int)  -- retry by transaction hash (EVM)
+  | scan (head start : Int)         -- one iteration of the scan loop of a listener built from the same config
+deriving Repr
+
+structure SeqState where
+  conf : Int      -- the shared confirmations value
+deriving Repr
+
+/-- one step: new shared state and whether the guard let the request / range through -/
+def seqStep (kind : Kind) (k : Int) (st : SeqState) : SeqStep → SeqState × Bool
+  | .retry l h => (st, retryReady l h st.conf)
+  | .retryTx l r => (st, retryReady l r st.conf)
+  | .scan hd c => (st, ready ⟨kind, k, st.conf, 1⟩ hd c)
+
+def seqRun (kind : Kind) (k : Int) : SeqState → List SeqStep → List Bool
+  | _, [] => []
+  | st, x :: xs => (seqStep kind k st x).2 :: seqRun kind k (seqStep kind k st x).1 xs
+
+/-- the same step judged with a fixed confirmations value -/
+def seqGuard (kind : Kind) (k conf : Int) : SeqStep → Bool
+  | .retry l h => retryReady l h conf
+  | .retryTx l r => retryReady l r conf
+  | .scan hd c => ready ⟨kind, k, conf, 1⟩ hd c
+
 end Sygma.C04
